@@ -26,7 +26,12 @@ func init() {
 }
 
 // abstract name -> concrete name (no name is a substring of the sandbox path or of another name's pattern)
-var names = map[string]string{"T": "T", "O": "O", "d": "zd", "f": "zf", "e": "ze", "sub": "zsub", "x": "zx", "l": "zl", "g": "g", "od": "od", "h": "h"}
+var namesPlain = map[string]string{"T": "T", "O": "O", "d": "zd", "f": "zf", "e": "ze", "sub": "zsub", "x": "zx", "l": "zl", "g": "g", "od": "od", "h": "h"}
+
+// the spelling "blanks": directory names that begin or end with a blank (legal names; what designates them must not be "tidied")
+var namesBlanks = map[string]string{"T": "T", "O": "O", "d": "zd ", "f": "zf", "e": " ze", "sub": " zsub ", "x": "zx", "l": "zl", "g": "g", "od": "od", "h": "h"}
+
+var names = namesPlain
 
 func conc(p []string) string {
 	out := make([]string, len(p))
@@ -46,6 +51,7 @@ type scenario struct {
 	Removed   [][]string `json:"removed"`
 	Protected [][]string `json:"protected"`
 	Fault     []string   `json:"fault"` // a nested entry whose removal the backend refuses ([] = none)
+	Spelling  string     `json:"spelling"` // plain | blanks
 }
 
 type event struct {
@@ -167,6 +173,10 @@ func runOp(fs filesystem.FS, op, tdir, link, pattern string) string {
 
 func replayOne(sc *scenario, backend, scratch string) (event, error) {
 	ev := event{Op: "Removal", Call: sc.Op, Backend: backend, Target: sc.Target, Pattern: sc.Pattern}
+	names = namesPlain
+	if sc.Spelling == "blanks" {
+		names = namesBlanks
+	}
 	base, root, cleanup, err := newFs(backend, scratch)
 	if err != nil {
 		return ev, err
@@ -191,7 +201,7 @@ func replayOne(sc *scenario, backend, scratch string) (event, error) {
 	mk("O/od/h", false)
 	linkPath := filepath.Join(root, filepath.FromSlash(conc(sc.LinkAt)))
 	if sc.Target != "none" {
-		tgt := map[string]string{"file-inside": "T/zf", "dir-inside": "T/zd", "file-outside": "O/g", "dir-outside": "O/od", "ancestor": "T", "dangling": "nowhere"}[sc.Target]
+		tgt := map[string]string{"file-inside": "T/zf", "dir-inside": "T/" + names["d"], "file-outside": "O/g", "dir-outside": "O/od", "ancestor": "T", "dangling": "nowhere"}[sc.Target]
 		if err := os.Symlink(filepath.Join(root, filepath.FromSlash(tgt)), linkPath); err != nil {
 			return ev, err
 		}
